@@ -134,7 +134,10 @@ def relay(ck, agg, nn):
                                 agg.add("R14.3", f, "with allow_multicast off a multicast-addressed frame is not queued", not enq, "%s: queued" % label)
                                 continue
                             if mtype == POLL and addr == 0o4444:
-                                continue  # an unconnected node's treatment of polls is outside the property
+                                # what else an unconnected node does with a poll is outside the property; it must not offer itself as a parent
+                                rep = [e for e in wr if const_of(norm(e.data[3]["args"][1])) == T.CONSTANTS["TX_PHYSICAL"]]
+                                agg.add("R14.3", f, "an unconnected node (address 0o4444) never answers a NETWORK_POLL", not rep, "%s: %d poll replies" % (label, len(rep)))
+                                continue
                             if mtype == POLL:
                                 agg.add("R14.3", f, "NETWORK_POLL is answered, never queued", not enq, "%s: queued %d" % (label, len(enq)))
                                 agg.add("R14.3", f, "NETWORK_POLL is answered at most once and never by an unconnected node", len(wr) <= 1 and not (addr == 0o4444 and wr), "%s: %d replies" % (label, len(wr)))
